@@ -19,6 +19,7 @@ mod selftest;
 mod elem;
 mod vut;
 mod dual;
+mod lockgraph;
 
 use std::path::PathBuf;
 
